@@ -56,8 +56,15 @@ def tape_of(cg):
 def complex_replay_section(rep, ap, rng, tier):
     """a graph recorded with real values replayed with COMPLEX plain arrays / complex UTPMs (complex-step differentiation, complex
     points): the replay evaluates the program at the complex point, nothing is cast to float on the way"""
-    for it in range(25 if tier == 'quick' else 300):
-        prog = progs.gen_prog(rng, ap, nout=1, scalar_only=True)
+    n_rand = 25 if tier == 'quick' else 300
+    kern = [(nm, pr) for nm, pr in progs.kernel_programs(rng, ap, reps=1) if nm.startswith(('bin', 'pow'))]
+    for it in range(n_rand + len(kern)):
+        if it < n_rand:
+            prog = progs.gen_prog(rng, ap, nout=1, scalar_only=True)
+        else:
+            # every operator with a constant on either side, the shortcut-prone constants included, and every power
+            prog = kern[it - n_rand][1]
+            rep.count('other-dtype replay of kernel program', kern[it - n_rand][0].split(':')[0])
         N = prog['N']
         text = progs.to_text(prog)
         x_rec, rmeta = make_input(ap, rng, N, rng.choice(['ndarray', 'UTPM']))
@@ -65,8 +72,13 @@ def complex_replay_section(rep, ap, rng, tier):
             cg, fx, fys = record(ap, prog, x_rec)
         except Exception as e:
             rep.notes.append('recording raised %r' % e); continue
-        for kind in ('ndarray_complex', 'complex_step', 'UTPM_complex'):
-            if kind == 'ndarray_complex':
+        for kind in ('ndarray_complex', 'complex_step', 'UTPM_complex', 'ndarray_int', 'UTPM_int_coefficients'):
+            if kind == 'ndarray_int':
+                # integer-valued points given with an INTEGER dtype: 1/x, x/2, x**-1 ... mean what they mean for NumPy integer arrays
+                xn = numpy.array([rng.choice([-4, -3, -2, 2, 3, 4, 5]) for _ in range(N)], dtype=int)
+            elif kind == 'UTPM_int_coefficients':
+                xn = ap.UTPM(numpy.array([[[rng.choice([-4, -3, -2, 2, 3, 4, 5]) for _ in range(N)]] for _ in range(2)], dtype=int))
+            elif kind == 'ndarray_complex':
                 xn = progs.rand_point(rng, N) + 1j * progs.rand_point(rng, N)
             elif kind == 'complex_step':
                 xn = progs.rand_point(rng, N) + 1e-20j * progs.rand_point(rng, N)
@@ -86,6 +98,8 @@ def complex_replay_section(rep, ap, rng, tier):
             ok = len(got) == len(want)
             for g, w in zip(got, want):
                 a, b = numpy.asarray(as_data(g)), numpy.asarray(as_data(w))
+                if not (numpy.all(numpy.isfinite(a)) and numpy.all(numpy.isfinite(b))):
+                    ok = ok and bool(numpy.array_equal(numpy.isfinite(a), numpy.isfinite(b))); continue
                 ok = ok and a.shape == b.shape and bool(numpy.all(numpy.abs(a - b) <= 1e-12 * (1 + numpy.abs(b)))) and \
                     (kind != 'complex_step' or bool(numpy.all(numpy.abs(a.imag - b.imag) <= 1e-12 * (1e-20 + numpy.abs(b.imag)))))
             if not ok:
